@@ -219,6 +219,27 @@ def run_case(c: dict):
                     "odd differences", shape=shp, largest=mx, offset=list(placed), expected_offset=list(want))
         return out
 
+    if fn == "bbox_twin":
+        # direct/utils/bbox.py is a second copy of direct/data/bbox.py: same contract expected
+        import importlib
+        try:
+            twin = importlib.import_module("direct.utils.bbox")
+        except ImportError:
+            return out
+        x0 = _labels(c["shape"])
+        bbox, fill = c["bbox"], c.get("fill", 0)
+        nd = len(bbox) // 2
+        ref = _window_ref(x0.numpy(), bbox[:nd], bbox[nd:], np.asarray(fill).astype(x0.numpy().dtype))
+        try:
+            got = twin.crop_to_bbox(x0, bbox, pad_value=fill)
+            if not _eq(got, ref):
+                bad("bbox-utils-twin-unrepaired", "direct.utils.bbox.crop_to_bbox (copy of direct.data.bbox) differs from the addressed "
+                    "window with pad fill", expected=str(ref.tolist())[:300], observed=str(got.tolist())[:300])
+        except (ValueError, TypeError, RuntimeError, IndexError) as e:
+            bad("bbox-utils-twin-unrepaired", f"direct.utils.bbox.crop_to_bbox (an unrepaired copy of direct.data.bbox.crop_to_bbox) raises "
+                f"{err_name(e)} for a box disjoint from the data", observed=repr(e)[:200])
+        return out
+
     if fn in ("complex_random_crop", "complex_center_crop"):
         shapes = c.get("shapes") or [c["shape"]]
         xs = [_labels(s) + 100 * j for j, s in enumerate(shapes)]
@@ -349,6 +370,11 @@ def gen_cases(ctx: Ctx, deep: bool):
                "dtype": dt, "path": rng.choice(["numpy", "torch"]), "layout": rng.choice(layouts[:4]),
                "form": rng.choice(["list", "tuple", "ndarray"])}
     yield {"fn": "crop_to_bbox", "shape": [4], "bbox": [-1, 3], "fill": 1, "dtype": "bool", "path": "torch"}    # pending finding, once per run
+    yield {"fn": "bbox_twin", "shape": [5, 2], "bbox": [13, 3, 2, 5], "fill": 0}                                   # pending finding, once per run
+    for _ in range(20 if not big else 200):
+        shp = shape(rng.randint(1, 3), 1, 5)
+        yield {"fn": "bbox_twin", "shape": shp, "bbox": [rng.randint(-3, n - 1) for n in shp] + [rng.randint(1, n + 3) for n in shp],
+               "fill": rng.choice([0, 2])}
     # ---- crop_to_largest
     for _ in range(30 if not big else 300):
         rank = rng.randint(1, 3)
